@@ -9,7 +9,7 @@
    atomically ([step]).  [reachable t0 fund allowed ops] is the state after the history. *)
 From Coq Require Import ZArith List Bool.
 Import ListNotations.
-From Osmo Require Import C06.Model C06.Proofs C06.ProofsAcc C06.ProofsRefs C06.ProofsQuery C06.ProofsCons C06.ProofsTime C06.ProofsEvol.
+From Osmo Require Import C06.Model C06.Proofs C06.ProofsAcc C06.ProofsRefs C06.ProofsQuery C06.ProofsCons C06.ProofsTime C06.ProofsEvol C06.ProofsRelease.
 Open Scope Z_scope.
 
 (* the lockup module account holds exactly the sum of all live locks' coins *)
@@ -131,6 +131,25 @@ Theorem C06_lock_evolution : forall t0 fund allowed ops o, Forall op_sender_ok o
 Proof. exact lock_evolution. Qed.
 Print Assumptions C06_lock_evolution.
 
+(* per lock: an operation other than a force-unlock makes a lock disappear only if it was unlocking and its end time has passed *)
+Theorem C06_release_only_matured : forall s o s', handle s o = Ok s' -> (forall a id dn amt, o <> OForce a id dn amt) ->
+  forall i l, get_lock (s_locks s) i = Some l -> get_lock (s_locks s') i = None ->
+  is_unlocking l = true /\ l_end l <= s_now s.
+Proof. exact handle_release. Qed.
+Print Assumptions C06_release_only_matured.
+
+(* the time-lock in one statement. [trace] runs a history and records for every lock id the block time bt(id) of the operation in
+   which it (last) went from "absent or not unlocking" to "unlocking". After any history: if an operation other than a
+   force-unlock makes lock i disappear, lock i was unlocking and block time >= bt(i) + its duration. *)
+Theorem C06_time_lock : forall t0 fund allowed ops o i l, Forall op_sender_ok ops ->
+  (forall a id dn amt, o <> OForce a id dn amt) ->
+  let s := fst (trace (init_state t0 fund allowed) (fun _ => 0) ops) in
+  let bt := snd (trace (init_state t0 fund allowed) (fun _ => 0) ops) in
+  get_lock (s_locks s) i = Some l -> get_lock (s_locks (fst (step s o))) i = None ->
+  is_unlocking l = true /\ bt i + l_dur l <= s_now s.
+Proof. exact time_lock. Qed.
+Print Assumptions C06_time_lock.
+
 (* the exception is guarded: a force-unlock succeeds only for the lock's owner and only if the owner is on the allowed list *)
 Theorem C06_force_only_allowed : forall s a id dn amt s', handle s (OForce a id dn amt) = Ok s' ->
   In a (s_allowed s) /\ exists l, get_lock (s_locks s) id = Some l /\ l_owner l = a.
@@ -203,3 +222,11 @@ Example C06_nonvacuous_refused_early :
     unlock_matured_lock s' 1 = Err ENotMatured /\
     s_bal (fst (step (fst (step s' (OTime 15))) (OUnlock 1))) 1 1 = 1000.
 Proof. eexists. eexists. split; [vm_compute; reflexivity|]. split; [vm_compute; reflexivity|]. vm_compute. repeat split. Qed.
+Definition nv_ops2 : list op := [OLock 1 1 100 5; OTime 12; OBegin 1 1 1 0; OTime 17].
+Example C06_nonvacuous_time_lock :
+  Forall op_sender_ok nv_ops2 /\
+  let s := fst (trace (init_state 10 nv_fund []) (fun _ => 0) nv_ops2) in
+  let bt := snd (trace (init_state 10 nv_fund []) (fun _ => 0) nv_ops2) in
+  bt 1 = 12 /\ s_now s = 17 /\ map l_end (s_locks s) = [17] /\ get_lock (s_locks (fst (step s (OUnlock 1)))) 1 = None /\
+  s_bal (fst (step s (OUnlock 1))) 1 1 = 1000.
+Proof. split; [repeat constructor; cbn; discriminate|]. vm_compute. repeat split. Qed.
